@@ -109,6 +109,27 @@ pub fn exec(f: &[&str]) -> Option<String> {
                 Ok((data, offs))
             };
             let same = |a: &Result<(Vec<u8>, Vec<u64>), Error>, b: &Result<(Vec<u8>, Vec<u64>), Error>| match (a, b) { (Ok(x), Ok(y)) => x == y, (Err(_), Err(_)) => true, _ => false };
+            // a batch: the same selection appended into buffers that already hold an earlier result
+            // (data and offsets in lockstep, and data with a fresh offsets vector): the prior bytes
+            // stay, the appended bytes are those of the empty-buffer run, offsets are positions in
+            // that same buffer
+            for (n, alone) in [("all", &all), ("first", &first), ("array", &array), ("mixed", &mixed)] {
+                if let Ok((d0, o0)) = alone {
+                    for fresh_offsets in [false, true] {
+                        let jp2 = match parse_json_path(&pathb) { Ok(j) => j, Err(_) => continue };
+                        let (mut data, mut offs) = (d0.clone(), if fresh_offsets { vec![] } else { o0.clone() });
+                        data.extend_from_slice(&[0xAA, 0xBB, 0xCC]);
+                        let base = data.len();
+                        let keep = offs.len();
+                        let m = match n { "all" => Mode::All, "first" => Mode::First, "array" => Mode::Array, _ => Mode::Mixed };
+                        if Selector::new(jp2, m).select(&doc, &mut data, &mut offs).is_err() { return Some(format!("batch: mode {} fails on a non-empty buffer", n)); }
+                        if data[..base - 3] != d0[..] || data[base - 3..base] != [0xAA, 0xBB, 0xCC] { return Some(format!("batch: mode {} modified bytes already in the buffer", n)); }
+                        if data[base..] != d0[..] { return Some(format!("batch: mode {} appends different bytes into a non-empty buffer", n)); }
+                        let want: Vec<u64> = o0.iter().map(|x| x + base as u64).collect();
+                        if offs[..keep] != o0[..keep.min(o0.len())] || offs[keep..] != want[..] { return Some(format!("batch: mode {} reports offsets that are not positions in the buffer (fresh offsets vector: {})", n, fresh_offsets)); }
+                    }
+                }
+            }
             if !same(&conv(0), &mixed) { return Some("get_by_path differs from Mode::Mixed".into()); }
             if !same(&conv(1), &first) { return Some("get_by_path_first differs from Mode::First".into()); }
             if !same(&conv(2), &array) { return Some("get_by_path_array differs from Mode::Array".into()); }
